@@ -1,14 +1,16 @@
 """C06 -- M3: recorded calls judged by TLC against MpfPost (spec/MpfPost.tla) on limb integers."""
-from .. import core, gen, cases, arith
+from .. import machine, core, gen, cases, arith
 from . import common
 
-PROP = "C06"; LEVEL = "exploration"
+PROP = "C06"; LEVEL = "model_checking"
 
 
 def main():
     chk = core.Check(PROP, LEVEL)
-    runner = cases.Runner(core.use_repo())
+    mp = core.use_repo()
+    runner = cases.Runner(mp)
     common.run_models(chk, MODELS)
+    machine.run(chk, mp)
     g = gen.G(chk.seed * 1000003 + int(PROP[1:]))
     cs = arith.GROUPS[PROP](g, chk.pick(2500, 80000))
     common.judge_cases(chk, cs, runner, "post", "integer-part / modulo definition violated")
